@@ -12,7 +12,8 @@
    dump in the tracker and clears seenKeys on retry).  All other faults (errors and EINTR on every netlink call, at any
    call, in any combination) are included. *)
 From Coq Require Import List NArith Bool String Permutation.
-From Verif.C17 Require Import Model Spec Proofs ProofsAttempt ProofsWinner ProofsApply ProofsEvery ProofsSound ProofsFull.
+From Verif.C17 Require Import Model Spec Proofs ProofsAttempt ProofsWinner ProofsApply ProofsEvery ProofsSound ProofsFull
+  ProofsView ProofsRefresh ProofsSync ProofsHistory ProofsOvertaken.
 Import ListNotations.
 Open Scope N_scope.
 
@@ -68,7 +69,9 @@ Print Assumptions c17_desired_tracks_winner.
      - routes in other tables, and routes that are not ours at destinations we do not want, are untouched
                                                                                             (c17_foreign_untouched)
    Together with c17_desired_tracks_winner the desired routes are the class-priority winners.
-   What is NOT covered for stale removal / foreign routes (hence c17_any_history_partial below): the Apply whose first
+   What is NOT covered for stale removal / foreign routes BY THESE THREE (they speak about arbitrary, even unreachable,
+   states; the reachable-state theorems c17_stale_removed / c17_foreign_untouched / c17_any_history further down cover
+   every successful Apply): the Apply whose first
    attempt completes the full resync, fails later, and whose inline retry (per-interface resync only) succeeds; and
    Applies with no full resync pending (for those, c17_desired_present_after_any_successful_apply gives the first clause).
    For those the statement is FALSE of the pinned code (c17_any_history_refuted_A, _B), and holds on every generated
@@ -82,16 +85,16 @@ Theorem c17_converges : forall cfg p s e s' e',
 Proof. exact apply_converges_full. Qed.
 Print Assumptions c17_converges.
 
-Theorem c17_stale_removed : forall cfg p s e s' e',
+Theorem c17_stale_removed_any_state_partial : forall cfg p s e s' e',
   plan_simple p = true ->
   NoDup (keys (e_routes e)) -> s_full s = true -> last_attempt_full cfg p s e = true ->
   apply cfg p s e = (false, s', e') ->
   forall k r, lookup rkey_eqb (s_desired s') k = None -> tbl cfg e' k = Some r ->
        kroute_is_ours cfg s' r = true -> in_grace cfg (e_now e') s' (kr_ifx r) = true.
 Proof. exact apply_stale_removed. Qed.
-Print Assumptions c17_stale_removed.
+Print Assumptions c17_stale_removed_any_state_partial.
 
-Theorem c17_foreign_untouched : forall cfg p s e s' e',
+Theorem c17_foreign_untouched_any_state_partial : forall cfg p s e s' e',
   plan_simple p = true ->
   NoDup (keys (e_routes e)) -> s_full s = true -> last_attempt_full cfg p s e = true ->
   apply cfg p s e = (false, s', e') ->
@@ -99,12 +102,12 @@ Theorem c17_foreign_untouched : forall cfg p s e s' e',
        (fst kk <> c_table cfg \/ (kroute_is_ours cfg s' r = false /\ lookup rkey_eqb (s_desired s') (snd kk) = None)) ->
        lookup kkey_eqb (e_routes e') kk = Some r.
 Proof. exact apply_foreign_untouched. Qed.
-Print Assumptions c17_foreign_untouched.
+Print Assumptions c17_foreign_untouched_any_state_partial.
 
 (* The same three facts for a single attemptApply with the full resync pending, from ANY state whatsoever (not only
    reachable ones), any kernel, any failure plan: this is the "from any starting kernel state and across netlink
    failures" part; interface churn before the attempt is arbitrary because the state is arbitrary. *)
-Theorem c17_any_history_partial : forall cfg p w w',
+Theorem c17_any_state_attempt_partial : forall cfg p w w',
   plan_simple p = true ->
   NoDup (keys (e_routes (w_env w))) ->
   s_full (w_st w) = true ->
@@ -118,7 +121,7 @@ Theorem c17_any_history_partial : forall cfg p w w',
         (kroute_is_ours cfg (w_st w') r = false /\ lookup rkey_eqb (s_desired (w_st w')) (snd kk) = None)) ->
        lookup kkey_eqb (e_routes (w_env w')) kk = Some r).
 Proof. exact full_attempt_converges. Qed.
-Print Assumptions c17_any_history_partial.
+Print Assumptions c17_any_state_attempt_partial.
 
 (* Tracker soundness: through every call, interface event, link change, clock step and every Apply with every failure
    plan (success or not), what the tracker believes to be in the kernel is in the kernel, as long as nobody else
@@ -157,6 +160,103 @@ Theorem c17_spec_desired_is_model_routes : forall cfg o s e,
   s_routes (fst (fst (step cfg o (s, e)))) = D_step cfg o (s_routes s) \/ (exists p, o = OApply p).
 Proof. exact step_routes. Qed.
 Print Assumptions c17_spec_desired_is_model_routes.
+
+
+(* ================================================================================================
+   EVERY successful Apply (code with fixes/C17-iface-resync-keeps-tracking-route-on-other-iface applied: c_fixB).
+
+   `S_inv cfg s e` is the invariant of the RouteTable over kernel e:
+     - the kernel's links are well formed (names and ifindexes unique, no ifindex 0) and its routes a finite map,
+     - the desired-route inputs are routes the ownership policy recognises (pol_ok),
+     - Felix's interface view is internally consistent and desired = class-priority winner of inputs and view (KI),
+     - and EITHER a full resync is pending OR the tracker is in sync (J): the tracker's dataplane view is in the kernel
+       (Sub), contains only routes of ours (Ours), contains every route of ours in the kernel (Own), and Felix's view of
+       the interfaces EQUALS the kernel's links (VM).
+   It holds at start of day over ANY kernel (S_inv_start), is kept by every Apply whatever its outcome and by every
+   well-formed step of a history (c17_history_keeps_invariant), and is what refreshAllIfaceStates + the full listing
+   establish (c17_view_is_links_after_refresh, full_resync_J).  `plan_honest p`: any combination of netlink failures
+   except (i) the overtaken dump FEintrP (see c17_converged_although_overtaken) and (ii) LinkByName answering "no such
+   interface" for an interface that exists (nothing can be expected of Felix if the kernel lies about that).
+   ================================================================================================ *)
+
+(* the three passes of refreshAllIfaceStates: from any internally consistent view to exactly the kernel's links *)
+Theorem c17_view_is_links_after_refresh : forall cfg now e s, wfl (e_links e) -> KI cfg s ->
+  VM cfg (refresh_all cfg now (e_links e) s) e /\ KI cfg (refresh_all cfg now (e_links e) s).
+Proof. exact refresh_all_VM. Qed.
+Print Assumptions c17_view_is_links_after_refresh.
+
+(* EVERY successful Apply -- full resync or per-interface resync only, first attempt or inline retry after a failed
+   attempt that had already completed the full resync, any honest failure plan -- ... *)
+Theorem c17_every_apply_converges : forall cfg p s e s' e',
+  plan_honest p = true -> c_fixB cfg = true -> S_inv cfg s e -> apply cfg p s e = (false, s', e') ->
+  forall k d, lookup rkey_eqb (s_desired s') k = Some d -> tbl cfg e' k = Some d.
+Proof. exact every_apply_converges. Qed.
+Print Assumptions c17_every_apply_converges.
+
+Theorem c17_stale_removed : forall cfg p s e s' e',
+  plan_honest p = true -> c_fixB cfg = true -> S_inv cfg s e -> apply cfg p s e = (false, s', e') ->
+  forall k r, lookup rkey_eqb (s_desired s') k = None -> tbl cfg e' k = Some r ->
+       kroute_is_ours cfg s' r = true -> in_grace cfg (e_now e') s' (kr_ifx r) = true.
+Proof. exact every_apply_stale_removed. Qed.
+Print Assumptions c17_stale_removed.
+
+Theorem c17_foreign_untouched : forall cfg p s e s' e',
+  plan_honest p = true -> c_fixB cfg = true -> S_inv cfg s e -> apply cfg p s e = (false, s', e') ->
+  forall kk r, lookup kkey_eqb (e_routes e) kk = Some r ->
+       (fst kk <> c_table cfg \/ (kroute_is_ours cfg s' r = false /\ lookup rkey_eqb (s_desired s') (snd kk) = None)) ->
+       lookup kkey_eqb (e_routes e') kk = Some r.
+Proof. exact every_apply_foreign_untouched. Qed.
+Print Assumptions c17_foreign_untouched.
+
+(* ... and every Apply, successful or not, keeps the invariant, so the next one is covered too *)
+Theorem c17_every_apply_keeps_invariant : forall cfg p s e err s' e',
+  plan_honest p = true -> c_fixB cfg = true -> S_inv cfg s e ->
+  apply cfg p s e = (err, s', e') -> S_inv cfg s' e'.
+Proof. exact every_apply_keeps_inv. Qed.
+Print Assumptions c17_every_apply_keeps_invariant.
+
+(* Histories.  hist_ok: SetRoutes/RouteUpdate for routes the policy recognises, RouteRemove, interface events that do not
+   hand an ifindex still held by another name to a new name nor renumber a name without the deletion being reported
+   first, link changes that keep the links well formed, clock steps, QueueResync / QueueResyncIface, Applies under
+   honest plans; nobody else changes Felix's routes after start of day (the starting kernel e0 is arbitrary).  The flag
+   `ok` (ok_after / ok_end) records that "resync pending or in sync" is known: interface events and link changes clear
+   it unless a full resync is pending at that moment, QueueResync and every Apply set it; an Apply is only allowed
+   when it is set.  NOT covered (and not claimed): an Apply after interface churn with no resync request in between. *)
+Theorem c17_history_keeps_invariant : forall cfg e0 ops, c_fixB cfg = true -> wfl (e_links e0) -> NoDup (keys (e_routes e0)) ->
+  hist_ok cfg true ops (st0, e0) ->
+  B_inv cfg (fst (run_st cfg ops (st0, e0))) (snd (run_st cfg ops (st0, e0))) /\
+  (ok_end cfg true ops (st0, e0) = true -> S_inv cfg (fst (run_st cfg ops (st0, e0))) (snd (run_st cfg ops (st0, e0)))).
+Proof. exact history_keeps_invariant. Qed.
+Print Assumptions c17_history_keeps_invariant.
+
+(* c17_any_history, full strength for the histories above: from ANY starting kernel, after any such history, an Apply
+   that reports success leaves: every desired route in the kernel exactly; every route of ours without a desired route
+   gone (unless its interface is in its grace period); every route that is not ours at a destination Felix does not
+   want, and every other table, untouched; the desired routes are the class-priority winners; and Felix's view of the
+   interfaces is the kernel's links (so "interfaces up" is the kernel's notion). *)
+Theorem c17_any_history : forall cfg e0 ops p s' e',
+  c_fixB cfg = true -> wfl (e_links e0) -> NoDup (keys (e_routes e0)) ->
+  hist_ok cfg true ops (st0, e0) -> ok_end cfg true ops (st0, e0) = true -> plan_honest p = true ->
+  let s := fst (run_st cfg ops (st0, e0)) in
+  let e := snd (run_st cfg ops (st0, e0)) in
+  apply cfg p s e = (false, s', e') ->
+  ConvStale cfg s' e' /\ Fgn cfg e s' e' /\
+  (forall k, lookup rkey_eqb (s_desired s') k = winner cfg s' k) /\ VM cfg s' e'.
+Proof. exact any_history. Qed.
+Print Assumptions c17_any_history.
+
+(* The fault excluded by plan_simple / plan_honest, inside a theorem: whole-table dumps that yield part of the routes,
+   are overtaken by somebody else changing the kernel (anything, any table) and fail with EINTR, any number of times,
+   together with any other failures.  From ANY state with the full resync pending: if Apply reports success and the
+   attempt that produced the result ran the full resync (it is the one that runs the retried dump), then with respect
+   to the kernel AS CHANGED every desired route is present exactly and every stale route of ours is gone. *)
+Theorem c17_converged_although_overtaken : forall cfg p s e s' e',
+  NoDup (keys (e_routes e)) -> s_full s = true ->
+  last_attempt_full cfg p s e = true ->
+  apply cfg p s e = (false, s', e') ->
+  ConvStale cfg s' e'.
+Proof. exact apply_convstale_gen. Qed.
+Print Assumptions c17_converged_although_overtaken.
 
 (* ------------------------------------------------------------------------------------------------
    Findings: the full statement is false of the faithful model of the pinned code.
@@ -264,4 +364,59 @@ Example c17_example_vanish_mid_dump :
   ok_history cfg_fixed witness_vanish obs = true /\
   last obs (true, []) = (false, [kr 254 0 0 (mkr 1 253 0 3 false 0 11 0)]) /\
   ok_history cfg_fixed witness_vanish [(false, [kr 254 0 0 (mkr 1 253 0 3 false 0 11 0)]); (false, [])] = false.
+Proof. vm_compute. repeat split; reflexivity. Qed.
+
+(* ---- non-vacuity of c17_any_history / c17_stale_removed / c17_foreign_untouched ---- *)
+(* start of day over a kernel holding a stale route of ours and a foreign route; link appears and is reported while the
+   start-of-day resync is pending; a route is asked for; the first Apply has its RouteReplace fail in attempt 0 AFTER the
+   full resync completed, so the per-interface-resync-only inline retry is the attempt that succeeds (case (a)); another
+   route is asked for and programmed by an Apply with NO full resync pending (case (b)). *)
+Definition e0_ex : env :=
+  {| e_links := [("cali1"%string, mkl 11 true true); ("lo"%string, mkl 1 true true)];
+     e_routes := [kr 254 5 0 (mkr 1 253 0 3 false 0 11 0); kr 254 6 0 (mkr 1 253 0 4 false 0 1 0); kr 100 0 0 (mkr 1 253 0 3 false 0 11 0)];
+     e_now := 0 |}.
+Definition hist_ex : list op :=
+  [OIface "cali1" 11 IfUp;
+   ORouteUpdate 0 "cali1" (rk 0 0) (mkt TLinkLocal 0 0 0 0);
+   OApply [pl (NReplace (rk 0 0)) 0 FErr];
+   ORouteUpdate 0 "cali1" (rk 1 0) (mkt TLinkLocal 0 0 0 0)].
+
+Example c17_example_history_ok :
+  wfl (e_links e0_ex) /\ NoDup (keys (e_routes e0_ex)) /\ hist_ok cfg_fixed true hist_ex (st0, e0_ex) /\
+  ok_end cfg_fixed true hist_ex (st0, e0_ex) = true.
+Proof.
+  split; [|split; [|split]].
+  - unfold wfl. cbn. repeat split; try (repeat constructor; cbn; intuition discriminate).
+    intros n l [H|[H|[]]]; injection H as <- <-; discriminate.
+  - cbn. repeat constructor; cbn; intuition discriminate.
+  - cbn [hist_ok hist_ex op_ok fst snd]. split; [|split; [|split; [|split]]]; try exact I.
+    + right. split; [discriminate|]. split; [intros n _; cbn; discriminate|left; reflexivity].
+    + vm_compute. repeat split; reflexivity.
+    + vm_compute. split; reflexivity.
+    + vm_compute. repeat split; reflexivity.
+  - vm_compute. reflexivity.
+Qed.
+
+Example c17_example_every_apply :
+  let '(s, e) := run_st cfg_fixed hist_ex (st0, e0_ex) in
+  s_full s = false /\
+  (let '(err, s', e') := apply cfg_fixed [] s e in
+   err = false /\
+   tbl cfg_fixed e' (rk 0 0) = Some (mkr 1 253 0 3 false 0 11 0) /\ tbl cfg_fixed e' (rk 1 0) = Some (mkr 1 253 0 3 false 0 11 0) /\
+   tbl cfg_fixed e' (rk 5 0) = None /\ tbl cfg_fixed e' (rk 6 0) = Some (mkr 1 253 0 4 false 0 1 0) /\
+   lookup kkey_eqb (e_routes e') (kk 100 0 0) = Some (mkr 1 253 0 3 false 0 11 0)).
+Proof. vm_compute. repeat split; reflexivity. Qed.
+
+(* the inline retry of the first Apply of hist_ex really is a per-interface-resync-only attempt that succeeds *)
+Example c17_example_retry_case :
+  let '(s, e) := run_st cfg_fixed [OIface "cali1" 11 IfUp; ORouteUpdate 0 "cali1" (rk 0 0) (mkt TLinkLocal 0 0 0 0)] (st0, e0_ex) in
+  let p := [pl (NReplace (rk 0 0)) 0 FErr] in
+  last_attempt_full cfg_fixed p s e = false /\ fst (fst (apply cfg_fixed p s e)) = false.
+Proof. vm_compute. split; reflexivity. Qed.
+
+(* hypotheses of c17_converged_although_overtaken are met by the overtaken Apply of witness_vanish *)
+Example c17_example_overtaken :
+  let '(s, e) := run_st cfg_fixed (firstn 5 witness_vanish) (st0, env0) in
+  let p := [pl NRouteListAll 0 (FEintrP [rk 0 0] [(kk 254 0 0, None)])] in
+  s_full s = true /\ last_attempt_full cfg_fixed p s e = true /\ fst (fst (apply cfg_fixed p s e)) = false /\ plan_simple p = false.
 Proof. vm_compute. repeat split; reflexivity. Qed.
